@@ -2,10 +2,11 @@
 from fractions import Fraction
 import math, struct
 import common as C
+import zigtie
 
 ID = "C02"
 LEVEL = "proof"
-COQ_HEADER = "From MiniMcmc Require Import Model.HMC."
+COQ_HEADER = "From MiniMcmc Require Import Model.HMC Model.Ziggurat."
 RULE = ("HMC::step under the per-step hook on DiffableGaussian2D, Rosenbrock2D, RosenbrockND and harness-defined batched targets "
         "(diagonal Gaussian d<=16, quartic), 1..32 chains, L in 0..64, step sizes 1e-3..unstable, f32 and f64 backends, several "
         "consecutive steps (so steps follow rejections): (1) decision layer bit-exact in Flocq: accept_logp = h_current - "
@@ -199,7 +200,26 @@ def coq_term(case, out):
         st0 = out["steps"][0]
         parts.append("hmc_draws_eval %s %s %s %s" % (C.natlit(st0["n_chains"]), C.natlit(st0["dim"]), C.natlit(len(out["steps"])),
                                                      C.zlist(out["draw_events"])))
+    zg = zig_plan(case, out)
+    if zg:
+        parts.append(zigtie.term(case["seed"], zg))
     return " ++ ".join("(%s)" % q for q in parts)
+
+
+_zig_cache = {}
+
+
+def zig_plan(case, out):
+    """every draw of the sampler's generator (per step n*d standard normals then n uniforms, in T) from the seed alone"""
+    if "draw_events" not in out or "seed" not in case or not out.get("steps"):
+        return None
+    key = (case["seed"], case["f"], len(out["draw_events"]))
+    if key not in _zig_cache:
+        kinds = []
+        for st in out["steps"]:
+            kinds += [0] * (st["n_chains"] * st["dim"]) + [2] * st["n_chains"]
+        _zig_cache[key] = zigtie.prepare(case["f"], case["seed"], kinds) if len(kinds) == len(out["draw_events"]) else None
+    return _zig_cache[key]
 
 
 def compare(case, out, model):
@@ -207,6 +227,11 @@ def compare(case, out, model):
         return "implementation panicked: " + out["panic"]
     if model is None:
         return None
+    model, zm = zigtie.split(model)
+    if zm is not None:
+        r = zigtie.check(case["f"], case["seed"], zig_plan(case, out), out["draw_events"], zm)
+        if r:
+            return "HMC generator stream: " + r
     conv = (lambda b: C.float_to_f32_bits(bf(b))) if case["f"] == "f32" else (lambda b: b)
     pos = 0
     for si, st in enumerate(out["steps"]):
@@ -377,6 +402,7 @@ def extra(cases, outs, model):
     tg = {}
     for c in cases:
         tg[c["target"]["kind"]] = tg.get(c["target"]["kind"], 0) + 1
-    return {"hmc_steps": steps, "rows_decided": rows, "rows_accepted": acc, "row_steps_following_a_rejection": after_rej,
+    zn = sum(len(zig_plan(c, o)["kinds"]) for c, o in zip(cases, outs) if isinstance(o, dict) and zig_plan(c, o))
+    return {"variates_computed_in_coq_from_seed": zn, "hmc_steps": steps, "rows_decided": rows, "rows_accepted": acc, "row_steps_following_a_rejection": after_rej,
             "targets": tg, "q_rows": sum(len(q_rows(c, o)) for c, o in zip(cases, outs)),
             "L_values": sorted({c["L"] for c in cases})}
